@@ -82,6 +82,10 @@ FLOORS = {"quick": {"evaluations": 1700, "distinct_nontrivial": 1200,
                                         **{"ran:" + k: int((v - (256 if k == "unique" else 128 if k == "bincount" else 64 if k in ("searchsorted", "isin") else 0)) * 20 * 0.4)
                                            for k, v in _OPF.items()}),
                        "max_skipped_fraction": 0.1}}
+# sibling facet (vf/mon/siblings.py): ~45 % of the smallest count of the five quick seeds on the unchanged tree; thorough =
+# quick floor x (thorough / quick stream size) x 0.6.  A run in which the facet never executed is INCONCLUSIVE.
+FLOORS["quick"]["counters"].update({"siblings_built": 1050, "siblings_computed_together": 155, "siblings_with_different_values": 170})
+FLOORS["thorough"]["counters"].update({"siblings_built": 10500, "siblings_computed_together": 1550, "siblings_with_different_values": 1700})
 EXHAUSTIVE_SPACE = ("all 32 chunkings of a length-6 array with pattern over {0,1,2} x {unique x 8 optional-output "
                     "combinations, bincount x minlength {0,5} x weights {no,yes}, searchsorted x side {left,right}, "
                     "isin x invert, nonzero}")
